@@ -114,6 +114,15 @@ CLAIMED = {
          'DU alone vs after the other DUs with the shared ROI, seeds incl. 0, four post-processing applications.',
          'Lean kernel (core only); static extractor (cross-checked with run-time call sites); partial: PRNG abstract; xpobssim driven by a DU-loop replica with a synthetic timeline; '
          'xpcalib/xpphotonlist static only (not runnable offline).'),
+ 'C19': ('proof', 'Lean 4 theorems about models of the n-d image layout, histogram persistence/copy, column-spec unpacking on generated tables, integer casts and the calendar arithmetic of DATE-OBS, tied by exact correspondence through the files the real classes write',
+         'load_save_image/hist_load_save/hist_load_save_errors (every dimensionality and shape; (√x)² = x on sumw2 ≥ 0, which reachable_sumw2_nonneg proves for every fill history), '
+         'hist_cycles_stable (any number of cycles), hist_copy_eq (+ the pre-repair witness), hist_add_sumw2/hist_scale, moveaxis_eq_T_2d vs moveaxis_loader_fails_3d, spec_tables_wf/formats_declared/'
+         'fits_numpy_types/mandatory_keywords_declared (kernel-decided on the generated DATA_SPECS / HEADER_KEYWORDS tables), columns_faithful/three_field_units/tunit_iff, wrap_range/wrap_id/wrap_idem, '
+         'rewrite_idempotent, telapse_spec, days_civil_roundtrip/civil_valid/unix_stamp_roundtrip/stamp_valid/date_matches_met/date_span/date_injective (every instant, leap years included), '
+         'mission_epoch_consistent; oracle: 1–3-d weighted histograms through copy/save/from_file cycles, every HDU class written and re-read, synthetic and simulated event files column by column '
+         'with header consistency, every xpbin product read and re-written twice with the package classes.',
+         'Lean kernel + Mathlib; models + generators; partial: byte-level FITS encoding (astropy), float32 rounding (IEEE; parameter r32 with idempotence as hypothesis) and CPython datetime are modelled or abstract, '
+         'exercised by the correspondence; known finding: LIVETIME J column overflow above 2147 s.'),
 }
 NOT_YET = 'check not built yet in this round (work in progress; see DESIGN.md section 7 for the planned model and theorems)'
 
